@@ -28,6 +28,9 @@ def _sym():
     return sympy
 
 
+FB = []          # fact base of the current run (for helper inlining)
+
+
 class Formula:
     """symbolic evaluation of a small member function for one valuation of its boolean flags / branch choices"""
 
@@ -37,6 +40,8 @@ class Formula:
         self.branch = branch      # 'neg' | 'nonneg' | None : truth of the x-side / value-side region
         self.S = symbols
         self.env = {}
+        self.cenv = {}            # boolean parameters of an inlined helper
+        self.depth = 0
         self.sets = []            # values handed to setValue
         self.ret = None
         self.threw = False
@@ -51,6 +56,8 @@ class Formula:
             return None if c is None else (not c)
         if k == "MemberExpr" and n["member"]["name"] in self.flags:
             return self.flags[n["member"]["name"]]
+        if k == "DeclRefExpr" and n["decl"]["id"] in self.cenv:
+            return self.cenv[n["decl"]["id"]]
         if k == "BinaryOperator" and n["op"] in ("&", "&&"):
             a, b = self.cond(kids(n)[0]), self.cond(kids(n)[1])
             if a is False or b is False:
@@ -127,6 +134,10 @@ class Formula:
         if is_call(n):
             q = n["callee"]["qname"]
             nm = n["callee"]["name"]
+            if n["callee"].get("inrepo") and nm not in ("getValue", "PI") and q != "bpp::NumConstants::PI":
+                v = self.inline(n)
+                if v is not None:
+                    return v
             args = [self.expr(a) for a in self.f.args(n)]
             fn = {"exp": sp.exp, "log": sp.log, "tanh": sp.tanh, "atanh": sp.atanh, "tan": sp.tan, "atan": sp.atan, "cosh": sp.cosh, "sinh": sp.sinh, "sqrt": sp.sqrt}
             if nm in fn and len(args) == 1:
@@ -138,6 +149,24 @@ class Formula:
             if nm == "getValue" and not args:
                 return self.S["x"]
             raise AnalysisBroken("E7: call %s not in the formula subset (%s)" % (q, self.f.key))
+        raise AnalysisBroken("E7: node %s not in the formula subset (%s)" % (k, self.f.key))
+
+    def inline(self, n):
+        """value of a call to an in-repository helper whose body is a formula of its arguments (one level)"""
+        g = FB[0].fns.get(n["callee"].get("key")) if FB else None
+        if g is None or g.body is None or self.depth > 1:
+            return None
+        sub = Formula(g, self.flags, self.branch, self.S)
+        sub.depth = self.depth + 1
+        for p_, a in zip(g.params, self.f.args(n)):
+            if (p_.get("ty") or "") == "bool":
+                sub.cenv[p_["id"]] = self.cond(a)
+            else:
+                sub.env[p_["id"]] = self.expr(a)
+        sub.run(g.body)
+        return sub.ret
+
+    def _unused(self, n, k):
         raise AnalysisBroken("E7: node %s not in the formula subset (%s)" % (k, self.f.key))
 
     def run(self, n):
@@ -218,6 +247,7 @@ def _compare(chk, sp, rule, f, construct, lhs, rhs, region, what):
 
 
 def _d1(chk, fb):
+    FB[:] = [fb]
     sp = _sym()
     x, v = sp.Symbol("x", real=True), sp.Symbol("v", real=True)
     s, b = sp.Symbol("s", positive=True), sp.Symbol("b", real=True)
@@ -322,6 +352,10 @@ def _d1(chk, fb):
     chk.floor("D1", "formula identities", n, 20)
 
 
+class _NotPoly(Exception):
+    pass
+
+
 def _d2(chk, fb):
     sp = _sym()
     F1, F2, F12 = sp.Symbol("F1"), sp.Symbol("F2"), sp.Symbol("F12")
@@ -330,7 +364,8 @@ def _d2(chk, fb):
     def atom(f, n):
         """symbol for a call in the accessor: inner-function derivative or transform derivative of a variable"""
         nm = n["callee"]["name"]
-        objt = render(f.obj(n)) if "obj" in n else ""
+        sub = local_inits(f)
+        objt = render(f.obj(n), sub) if "obj" in n else ""
         var = [render(a) for a in f.args(n)]
         inner = "function_" in objt
         if inner and nm == "getFirstOrderDerivative":
@@ -341,13 +376,23 @@ def _d2(chk, fb):
             return F12
         if not inner and nm in ("getFirstOrderDerivative", "getSecondOrderDerivative") and not var:
             # transform of which variable? the parameter looked up inside the object expression
-            names = [x["decl"]["name"] for x in walk(f.obj(n)) if x["k"] == "DeclRefExpr" and x["decl"]["kind"] == "param"]
+            onode = strip(f.obj(n))
+            hops = 0
+            while onode["k"] == "DeclRefExpr" and onode["decl"]["kind"] == "local" and onode["decl"]["id"] in sub and hops < 4:
+                onode = strip(sub[onode["decl"]["id"]])
+                hops += 1
+            names = [x["decl"]["name"] for x in walk(onode) if x["k"] == "DeclRefExpr" and x["decl"]["kind"] == "param"]
             v = sp.Symbol(names[0]) if names else sp.Symbol("?")
             return (T1 if nm == "getFirstOrderDerivative" else T2)(v)
         return None
 
     def tr(f, n):
         n = strip(n)
+        sub = local_inits(f)
+        hops = 0
+        while n["k"] == "DeclRefExpr" and n["decl"]["kind"] == "local" and n["decl"]["id"] in sub and hops < 4:
+            n = strip(sub[n["decl"]["id"]])
+            hops += 1
         if n["k"] == "BinaryOperator" and n["op"] in ("+", "-", "*"):
             a, b = tr(f, kids(n)[0]), tr(f, kids(n)[1])
             return {"+": a + b, "-": a - b, "*": a * b}[n["op"]]
@@ -359,7 +404,7 @@ def _d2(chk, fb):
             a = atom(f, n)
             if a is not None:
                 return a
-        raise AnalysisBroken("D2: expression '%s' is not a polynomial in derivative accessors (%s)" % (render(n)[:60], f.key))
+        raise _NotPoly("expression '%s' is not a polynomial in derivative accessors" % render(n)[:60])
     specs = [("bpp::ReparametrizationDerivableFirstOrderWrapper::getFirstOrderDerivative", 1, lambda v: F1 * T1(v[0])),
              ("bpp::ReparametrizationDerivableSecondOrderWrapper::getSecondOrderDerivative", 1, lambda v: F2 * T1(v[0]) ** 2 + F1 * T2(v[0])),
              ("bpp::ReparametrizationDerivableSecondOrderWrapper::getSecondOrderDerivative", 2, lambda v: F12 * T1(v[0]) * T1(v[1]))]
@@ -369,7 +414,11 @@ def _d2(chk, fb):
             raise AnalysisBroken("anchor vanished: %s/%d" % (q, np_))
         f = fs[0]
         rets = [n for n in walk(f.body) if n["k"] == "ReturnStmt"]
-        got = tr(f, kids(rets[0])[0])
+        try:
+            got = tr(f, kids(rets[0])[0])
+        except _NotPoly as ex:
+            chk.unknown("D2", f.key, "chain-rule", f.loc(), str(ex))
+            continue
         vs = [sp.Symbol(p["name"]) for p in f.params]
         exp = want(vs)
         if sp.simplify(sp.expand(got - exp)) == 0:
@@ -472,7 +521,10 @@ def _d3(chk, fb):
         nw = reached[0]
         ty = nw["newty"].split("::")[-1]
         ce = [x for x in kids(nw) if x["k"] == "CXXConstructExpr"][0]
-        args = [render(a) for a in f.args(ce)]
+        # only numeric locals (const double lower = interval->getLowerBound(); ...) are looked through
+        dbl = {d["id"] for dn in f.all_nodes() if dn["k"] == "DeclStmt" for d in dn["decls"] if (d.get("ty") or "") in ("double", "const double")}
+        sub_ = {k_: v_ for k_, v_ in local_inits(f).items() if k_ in dbl}
+        args = [render(a, sub_) for a in f.args(ce)]
         if lo != "inf" and up != "inf":
             want_lb = "(interval.getLowerBound() + bpp::NumConstants::TINY())" if lo == "open" else "interval.getLowerBound()"
             want_ub = "(interval.getUpperBound() - bpp::NumConstants::TINY())" if up == "open" else "interval.getUpperBound()"
@@ -486,8 +538,12 @@ def _d3(chk, fb):
             want_b = "(interval.getUpperBound() - bpp::NumConstants::TINY())" if up == "open" else "interval.getUpperBound()"
             ok = ty == "RTransformedParameter" and len(args) >= 4 and args[2] == want_b and args[3] == "false"
             exp = "RTransformedParameter(name, value, %s, false)" % want_b
+        vocab = {"interval.getLowerBound()", "interval.getUpperBound()", "(interval.getLowerBound() + bpp::NumConstants::TINY())", "(interval.getUpperBound() - bpp::NumConstants::TINY())",
+                 "(interval.getLowerBound() - bpp::NumConstants::TINY())", "(interval.getUpperBound() + bpp::NumConstants::TINY())", "true", "false"}
         if ok:
             chk.proved("D3", f.key, "transform[%s]" % tag, f.loc(nw), "%s(%s)" % (ty, ", ".join(args)))
+        elif len(args) >= 4 and not all(a_ in vocab for a_ in args[2:4]) and ty in ("IntervalTransformedParameter", "RTransformedParameter"):
+            chk.unknown("D3", f.key, "transform[%s]" % tag, f.loc(nw), "bound arguments (%s) not in the recognised vocabulary" % ", ".join(args[2:4]))
         else:
             chk.refuted("D3", f.key, "transform[%s]" % tag, f.loc(nw), "configuration %s creates %s(%s); expected %s (transform kind, orientation, and strict bounds nudged inwards)" % (tag, ty, ", ".join(args), exp),
                         witness={"input": "a parameter with a %s lower and %s upper bound" % (lo, up)})
